@@ -190,7 +190,7 @@ func convClass0(x *value) string {
 	case nm.Number:
 		if x.m.K == nm.Number && x.key.tag == tFloat {
 			if ok, _ := canonical(x.key); !ok {
-				return "noncanonical-float " + numClass(m.N)
+				return "noncanonical-float " + numClassCoarse(m.N)
 			}
 		}
 		return numClass(m.N)
@@ -241,7 +241,7 @@ func hypClass(which int, x *value) string {
 				rep = "utf16"
 			}
 			sh := convShape(m.S)
-			if sh == "numeric" || sh == "-0" || sh == "empty" || sh == "numeric, magnitude >=2^63" {
+			if sh == "numeric" || sh == "-0" || sh == "-0 written with several zeros" || sh == "empty" || sh == "numeric, magnitude >=2^63" {
 				return rep + " string (any valid numeric text)"
 			}
 		}
@@ -355,6 +355,15 @@ func (w *worker) explainedBy(op *Op, a, b *value, got outcome, h hypothesis) (of
 	if offender == nil {
 		return nil, 0, 0, false
 	}
+	// cheap test first: the specified semantics applied to the probe's results give the observed outcome
+	var mb nm.Val
+	if op.Ar == 2 {
+		mb = subs[1].m
+	}
+	if e2, mok := modelVals(op, subs[0].m, mb); mok && agrees(got, e2) {
+		return offender, gives, want, true
+	}
+	// otherwise ask the engine itself (covers the interplay with other defects of the operation)
 	return offender, gives, want, sameOutcome(w.apply(op, subs[0], subs[1]), got)
 }
 
@@ -483,7 +492,7 @@ func (w *worker) valueSig(op *Op, a, b *value, got outcome, exp nm.Expect) (sig,
 		var strs []string
 		for i := 0; i < op.Ar; i++ {
 			if p := nm.ToPrimitive(operands[i].m, true); p.K == nm.String {
-				strs = append(strs, strings.Replace(convClass(operands[i]), "string -0", "string numeric", 1))
+				strs = append(strs, strings.Replace(strings.Replace(convClass(operands[i]), "string -0 written with several zeros", "string numeric", 1), "string -0", "string numeric", 1))
 			}
 		}
 		if len(strs) == 1 {
